@@ -203,6 +203,8 @@ structure Sys where
   now : Nat := 0
   client : Client := .idle
   done : List (Nat × Res) := []     -- completed client operations with their completion time
+  behind : List Item := []          -- frames a successful read put back after the reader task had ended: they sit
+                                    -- *behind* the end-of-stream marker until a consumer meets the marker
 deriving Repr
 
 def Sys.finish (s : Sys) (r : Res) : Sys := { s with client := .idle, done := s.done ++ [(s.now, r)] }
@@ -221,7 +223,11 @@ def clientRun (cfg : Cfg) (s : Sys) : Sys :=
   | .reading sk c =>
     match scan (dataMatches cfg) sk s.queue with
     | .more sk' => { s with queue := [], client := .reading sk' c }
-    | .hit x rest sk' => { s with queue := rest ++ sk' }.finish (.data x.payload)
+    -- `read_diag_request` re-appends what it has skipped at the tail: behind the end-of-stream marker when the
+    -- reader task has ended
+    | .hit x rest sk' =>
+      { s with queue := if s.eof then rest else rest ++ sk',
+               behind := if s.eof then s.behind ++ sk' else s.behind }.finish (.data x.payload)
     -- `read_diag_request` drops what it has skipped when it ends by an exception
     | .err cw rest _ => { s with queue := rest, closed := true }.finish (.errWord cw)
 
@@ -281,13 +287,14 @@ def fire (s : Sys) (target : Nat) : Sys :=
 
 /-- the end-of-stream marker: once the reader task has ended, a consumer that finds nothing it awaits in the queue
     is not left blocked but ends with `BrokenPipeError`.  The ack wait puts the frames it skipped back (`finally`),
-    `read_diag_request` drops them (it ends by an exception). -/
+    `read_diag_request` drops them (it ends by an exception).  `read_frame` puts the marker back at the very end, so
+    whatever sat behind it is in front of it from now on. -/
 def wake (s : Sys) : Sys :=
   if s.eof then
     match s.client with
     | .idle => s
-    | .ackWait _ sk _ _ => { s with queue := sk ++ s.queue }.finish .peerClosed
-    | .reading _ _ => s.finish .peerClosed
+    | .ackWait _ sk _ _ => { s with queue := sk ++ s.queue ++ s.behind, behind := [] }.finish .peerClosed
+    | .reading _ _ => { s with queue := s.queue ++ s.behind, behind := [] }.finish .peerClosed
   else s
 
 inductive Op
